@@ -1389,6 +1389,185 @@ def e_namedtuple(it, args, kwargs, node):
     return NamedTupleClass(name, fields)
 
 
+class ParserV(AVal):
+    """argparse.ArgumentParser (kind 'parser'), an argument group of one ('group', shares the parser's lists) or the object
+    returned by add_subparsers ('subparsers').  Only the definitions are recorded; `namespace()` turns them into what
+    parse_args() hands over for every way of giving or leaving out each option."""
+    def __init__(self, root=None, kind='parser'):
+        self.kind = kind
+        self.root = root if root is not None else self
+        if root is None:
+            self.specs = []        # [(flags: [str], kwargs: {name: AVal}, node)]
+            self.defaults = {}     # set_defaults
+            self.subs = {}         # sub-command name -> ParserV
+            self.unknown = []      # definitions that could not be read
+
+    def __repr__(self):
+        return f'<argparse {self.kind}>'
+
+
+class NamespaceV(AVal):
+    def __init__(self, parser):
+        self.parser = parser
+        self.dict = None
+
+    def __repr__(self):
+        return '<argparse namespace>'
+
+
+def e_argparser(it, args, kwargs, node):
+    p = ParserV()
+    parents = it.resolve(kwargs['parents']) if 'parents' in kwargs else None
+    if parents is not None:
+        items = getattr(parents, 'items', None)
+        if items is None or not all(isinstance(it.resolve(x), ParserV) for x in items):
+            p.unknown.append('parents= is not a list of parsers')
+        else:
+            for x in items:
+                x = it.resolve(x).root
+                p.specs += x.specs
+                p.defaults.update(x.defaults)
+                p.unknown += x.unknown
+    return p
+
+
+def parser_method(it, recv, name, args, kwargs, node):
+    root = recv.root
+    if name == 'add_argument':
+        flags = [it.py_key(it.resolve(a)) for a in args]
+        if not flags or not all(isinstance(f, str) for f in flags) or '**' in kwargs:
+            root.unknown.append('add_argument with computed option strings')
+        else:
+            root.specs.append((flags, {k: it.resolve(v) for k, v in kwargs.items()}, node))
+        return ConstV(None)
+    if name in ('add_argument_group', 'add_mutually_exclusive_group'):
+        return ParserV(root=root, kind='group')
+    if name == 'add_subparsers':
+        sp = ParserV(root=root, kind='subparsers')
+        if 'dest' in kwargs:
+            root.sub_dest = it.py_key(it.resolve(kwargs['dest']))
+        return sp
+    if name == 'add_parser' and recv.kind == 'subparsers':
+        sub = e_argparser(it, [], kwargs, node)
+        nm = it.py_key(it.resolve(args[0])) if args else None
+        if not isinstance(nm, str):
+            root.unknown.append('sub-command with a computed name')
+        else:
+            root.subs[nm] = sub
+        return sub
+    if name == 'set_defaults':
+        root.defaults.update({k: it.resolve(v) for k, v in kwargs.items() if k != '**'})
+        if '**' in kwargs:
+            root.unknown.append('set_defaults(**computed)')
+        return ConstV(None)
+    if name in ('parse_args', 'parse_known_args'):
+        ns = NamespaceV(root)
+        return ns if name == 'parse_args' else TupleV([ns, ListV(items=[])])
+    if name in ('print_help', 'print_usage', 'format_help', 'format_usage', 'error', 'exit'):
+        return UnkV(name)
+    root.unknown.append(f'parser.{name}()')
+    return UnkV(name)
+
+
+def parser_namespace(it, parser):
+    """{dest: value} as parse_args() delivers it, forking over: the sub-command, every option given / left out.
+    What was decided is recorded in it.user['argv']: {option string: {'given', 'value', 'dest'}} (+ 'command')."""
+    root = parser.root
+    info = it.user.setdefault('argv', {})
+    specs, defaults, unknown = list(root.specs), dict(root.defaults), list(root.unknown)
+    if root.subs:
+        names = sorted(root.subs)
+        c = it.choose(len(names), 'sub-command ' + ' / '.join(names)) or 0
+        sub = root.subs[names[c]].root
+        info['command'] = names[c]
+        specs += sub.specs
+        defaults.update(sub.defaults)
+        unknown += sub.unknown
+        if getattr(root, 'sub_dest', None):
+            defaults[root.sub_dest] = lit(names[c])
+    for u in unknown:
+        it.note_unknown(None, f'argparse definition not followed: {u}')
+    ns = dict(defaults)
+    for flags, kw, node in specs:
+        action = it.py_key(kw['action']) if 'action' in kw and not isinstance(kw['action'], ExtV) else ('store' if 'action' not in kw else kw['action'].name)
+        if action in ('version', 'help'):
+            continue
+        positional = not flags[0].startswith('-')
+        if 'dest' in kw:
+            dest = it.py_key(kw['dest'])
+        elif positional:
+            dest = flags[0]
+        else:
+            longs = [f for f in flags if f.startswith('--')]
+            dest = (longs[0] if longs else flags[0]).lstrip('-').replace('-', '_')
+        if not isinstance(dest, str):
+            it.note_unknown(node, 'argparse dest is not a constant')
+            continue
+        nargs = it.py_key(kw['nargs']) if 'nargs' in kw else None
+        label = flags[-1]
+        rec = {'dest': dest, 'flags': flags, 'node': node}
+
+        def not_given(default):
+            if dest in defaults:
+                return defaults[dest]
+            return kw['default'] if 'default' in kw else default
+        if action == 'store':
+            optional = not positional or nargs in ('?', '*')
+            given = True if not optional else it.choose(2, f'{label} given / not given') in (0, None)
+            if nargs not in (None, '?'):
+                val = UnkV(f'argv:{dest}') if given else not_given(ConstV(None))
+                if given:
+                    it.note_unknown(node, f'argparse nargs={nargs!r}')
+            elif given:
+                ty = kw.get('type')
+                ch = kw.get('choices')
+                ch_items = None
+                if ch is not None:
+                    k = it.py_key(ch)
+                    if not isinstance(k, (list, tuple)) and getattr(ch, 'items', None) is not None and not isinstance(ch, DictV):
+                        k = [it.py_key(it.resolve(x)) for x in ch.items]
+                    if isinstance(k, (list, tuple)) and all(isinstance(x, str) for x in k):
+                        ch_items = tuple(k)
+                if ch_items:
+                    val = SymV(it.fresh(dest), 'str', choices=ch_items)
+                elif ty is None or (isinstance(ty, ExtV) and ty.name in ('str', 'builtins.str')):
+                    val = it.sym_str(dest, lo=1)       # an option given with a non-empty value
+                elif isinstance(ty, ExtV) and ty.name in ('int', 'builtins.int'):
+                    val = it.sym_int(dest, None, None)
+                else:
+                    val = UnkV(f'argv:{dest}')
+                    it.note_unknown(node, f'argparse type={ty!r}')
+            else:
+                val = not_given(ConstV(None))
+        elif action in ('store_true', 'store_false'):
+            given = it.choose(2, f'{label} given / not given') in (0, None)
+            val = ConstV(action == 'store_true') if given else not_given(ConstV(action != 'store_true'))
+        elif isinstance(kw.get('action'), ExtV) and kw['action'].name.endswith('BooleanOptionalAction'):
+            # --flag / --no-flag: True, False, or (left out) the default - None unless one is declared
+            c = it.choose(3, f'{label} given / --no- form given / not given') or 0
+            given = c == 0
+            val = ConstV(c == 0) if c in (0, 1) else not_given(ConstV(None))
+            for f in list(flags):
+                if f.startswith('--'):
+                    info['--no-' + f[2:]] = {'dest': dest, 'flags': flags, 'node': node, 'given': c == 1, 'value': val}
+        elif action == 'store_const':
+            given = it.choose(2, f'{label} given / not given') in (0, None)
+            val = kw.get('const', ConstV(None)) if given else not_given(ConstV(None))
+        else:
+            given = None
+            val = UnkV(f'argv:{dest}')
+            it.note_unknown(node, f'argparse action={action!r}')
+        if given is False and dest in ns and any(r.get('dest') == dest and r.get('given') for r in info.values() if isinstance(r, dict)):
+            pass          # another option string with the same dest was given: its value stands
+        else:
+            ns[dest] = val
+        rec.update(given=given, value=val)
+        for f in flags:
+            info[f] = rec
+    d = DictV(items=dict(ns), desc='vars(parse_args())')
+    return d
+
+
 class StructV(AVal):
     def __init__(self, fmt):
         self.fmt = fmt
@@ -1406,7 +1585,7 @@ def e_struct_struct(it, args, kwargs, node):
 
 
 EXT = {
-    'collections.namedtuple': e_namedtuple, 'struct.Struct': e_struct_struct,
+    'collections.namedtuple': e_namedtuple, 'struct.Struct': e_struct_struct, 'argparse.ArgumentParser': e_argparser,
     'logging.getLogger': e_getlogger,
     'struct.unpack': e_struct_unpack, 'struct.pack': e_struct_pack, 'struct.calcsize': e_struct_calcsize,
     'binascii.hexlify': e_hexlify, 'binascii.b2a_hex': e_hexlify,
